@@ -605,7 +605,7 @@ func (g *game) RequestAnte() error {
 func (g *game) RequestBlinds() error {
 
 	// No need to pay blinds
-	if g.gs.Meta.Blind.Dealer == 0 && g.gs.Meta.Blind.SB == 0 && g.gs.Meta.Blind.BB > 0 {
+	if g.gs.Meta.Blind.Dealer == 0 && g.gs.Meta.Blind.SB == 0 && g.gs.Meta.Blind.BB == 0 {
 		return g.EmitEvent(GameEvent_BlindsPaid)
 	}
 
